@@ -786,6 +786,26 @@ def at_least(p: Path, small: str, big: str) -> bool:
             or p.outcome(("<", big, small)) is False)
 
 
+def settle_minmax(p: Path, e: ast.AST) -> ast.AST:
+    """`e` with every two-operand `min(a, b)` / `max(a, b)` whose order the conditions of the path established
+    replaced by the operand it selects (`min(share, cap)` is `cap` after `share > cap` was taken, `share` after it
+    was refused): merged arms `if A or B: x = min(a, b) - m` store on each path what the separate arms stored."""
+    class T(ast.NodeTransformer):
+        def visit_Call(self, node: ast.Call) -> ast.AST:  # noqa: N802
+            self.generic_visit(node)
+            if isinstance(node.func, ast.Name) and node.func.id in ("min", "max") and len(node.args) == 2 \
+                    and not node.keywords and not any(isinstance(a, ast.Starred) for a in node.args):
+                a, b = node.args
+                ta, tb = u(a), u(b)
+                if ta == tb:
+                    return a
+                small = a if ordered(p, ta, tb) else b if ordered(p, tb, ta) else None
+                if small is not None:
+                    return small if node.func.id == "min" else (b if small is a else a)
+            return node
+    return T().visit(copy.deepcopy(e))
+
+
 # ------------------------------------------------------------------------------------- dataclass fields
 def fields_of(prog: Program, qual: str) -> list[str]:
     """Field names of a dataclass in declaration order (= positional order of its constructor)."""
